@@ -312,7 +312,8 @@ Proof.
 Qed.
 
 (* ---------- well-formed receive states ---------- *)
-Definition W2 (m : mstate) : Prop := uon D m = true -> uval D m = true /\ uend D m = (ust D m =? 0).
+Definition W2 (m : mstate) : Prop :=
+  uon D m = true -> uval D m = true /\ uend D m = (ust D m =? 0) /\ (ust D m =? 1) = false.
 Definition W3 (s : rstate) : Prop :=
   match cur D s with
   | Some f => mptr D s <= f_len f /\
@@ -325,7 +326,7 @@ Lemma Wf_push s y : Wf s -> Wf (push s y).
 Proof. intros H. exact H. Qed.
 
 Lemma Wf_init p d0 : Wf (init_state D p d0).
-Proof. split; [intros _; split; reflexivity|exact I]. Qed.
+Proof. split; [intros _; repeat split|exact I]. Qed.
 
 (* onFrameBegin keeps W2 *)
 Lemma on_frame_begin_W2 (s : rstate) f : W2 (ms D s) -> W2 (ms D (fst (on_frame_begin D cd cf s f))).
@@ -339,7 +340,7 @@ Proof.
   - assert (G : forall m0 : mstate, W2 (m_mtotal D (m_fdata D (m_mtotal D (m_mdata D (m_mbin D
                  (if fb_is_text (f_op f) && utf8validate cf then m_utf8 D (m_uon D m0 true) 0 true true else m_uon D m0 false)
                  (fb_is_binary (f_op f))) []) 0) []) (0 + f_len f))).
-    { intros m0. destruct (fb_is_text (f_op f) && utf8validate cf); unfold W2; cbn; intros; [split; reflexivity|discriminate]. }
+    { intros m0. destruct (fb_is_text (f_op f) && utf8validate cf); unfold W2; cbn; intros; [repeat split|discriminate]. }
     destruct (pmc cf && fb_rsv_is4 (f_rsv f));
     (destruct (failed (cn D s)); [apply G|];
      destruct (mf_msg_limit _ _); [destruct (max_size_exceeded cf (cn D s)); apply G|];
@@ -520,8 +521,9 @@ Proof.
   destruct (uon D m) eqn:Hu.
   - destruct (u_validate (ust D m) pl) as [[v e] u1] eqn:Ev. destruct v; cbn [negb].
     + split; [discriminate|]. intros _. split; [|split; reflexivity].
-      unfold u_validate in Ev. destruct (u_loop (ust D m) pl) as [v' s']. inversion Ev; subst.
-      unfold on_message_frame_data. destruct (failed c); unfold W2; cbn; intros _; split; reflexivity.
+      unfold u_validate in Ev. destruct (u_loop (ust D m) pl) as [v' s'] eqn:EL. inversion Ev; subst.
+      pose proof (u_loop_true_not_reject _ _ _ EL) as NR.
+      unfold on_message_frame_data. destruct (failed c); unfold W2; cbn; intros _; repeat split; exact NR.
     + pose proof (fbd_invalid_payload c) as I. destruct (invalid_payload cf c) as [[c1 ev] stop]. destruct I as [-> I].
       split; [intros _; exact I|discriminate].
   - split; [discriminate|]. intros _. split; [|split; reflexivity].
@@ -614,7 +616,7 @@ Proof.
   { destruct (zon D m); [apply d_nil|reflexivity]. }
   rewrite E. cbn [uon m_dec ust].
   destruct (uon D m) eqn:Hu.
-  - destruct (H Hu) as [Hv He]. cbn [u_validate u_loop negb andb].
+  - destruct (H Hu) as [Hv [He Hr]]. cbn [u_validate u_loop]. rewrite Hr. cbn [negb andb].
     unfold on_message_frame_data. destruct m; cbn in *. subst. rewrite app_nil_r. destruct (failed c); reflexivity.
   - unfold on_message_frame_data. destruct m; cbn in *. rewrite app_nil_r. destruct (failed c); reflexivity.
 Qed.
